@@ -95,6 +95,124 @@ def tie_source_tables(ctx, rng, ncases):
                                detail=json.dumps(dict(first_disagreeing_case=dis[0], sequences_so_far=cases[:dis[0] + 1], observed=res[dis[0]]))[:3000]))
 
 
+HELPER_A = "from nada_dsl import *\n\ndef scale(x):\n    return x * Integer(3)\n"
+HELPER_B = "from nada_dsl import *\n\ndef scale(x):\n    return x * Integer(2)\n"
+MAIN_AB = ("from nada_dsl import *\nfrom helpers import scale\n\n\ndef nada_main():\n    p = Party(name='P0')\n"
+           "    v = SecretInteger(Input(name='{n}', party=p))\n    return [Output(scale(v), 'o', p)]\n")
+SCALING_PROGRAM = ("from nada_dsl import *\n\ndef scale(x):\n    return x * Integer(3)\n\n\ndef nada_main():\n    p = Party(name='P0')\n"
+                   "    v = SecretInteger(Input(name='w', party=p))\n    return [Output(scale(v), 'o', p)]\n")
+MAIN_SCALING = ("from nada_dsl import *\nfrom scaling import scale\n\n\ndef nada_main():\n    p = Party(name='P0')\n"
+                "    v = SecretInteger(Input(name='v', party=p))\n    return [Output(scale(v), 'o', p)]\n")
+SCALING_B = "from nada_dsl import *\n\ndef scale(x):\n    return x * Integer(2)\n"
+
+
+def strip_loc(m):
+    def walk(x):
+        if isinstance(x, dict):
+            return {k: walk(v) for k, v in x.items() if k != "source_ref_index"}
+        if isinstance(x, list):
+            return [walk(v) for v in x]
+        return x
+    return walk({k: v for k, v in m.items() if k not in ("source_files", "source_refs")})
+
+
+def plans_part(ctx, cands, fresh, good, rng):
+    """(a) tracing and compiling interleaved: trace A, trace B, compile A, trace C, compile B — B must come out as when compiled
+    alone; (b) programs compiled from files with compile_script one after the other, each with its own helper module of the
+    same name / a helper named like an earlier program"""
+    d = tempfile.mkdtemp(prefix="nadaverif_c08p_")
+    jobs = []
+    try:
+        n = 12 if ctx.tier == "quick" else 150
+        for j in range(n):
+            a, b, c = rng.choice(good), rng.choice(good), rng.choice(good)
+            pd = os.path.join(d, f"i{j}")
+            os.makedirs(pd)
+            paths = {}
+            for nm, i in (("A", a), ("B", b), ("C", c)):
+                paths[nm] = os.path.join(pd, f"{nm}.py")
+                open(paths[nm], "w").write(cands[i].get("text") or surface.to_python(cands[i]))
+            shape = rng.choice(["abAcB", "abcBA", "abBaA"])
+            if shape == "abAcB":
+                plan, rep = [["trace", paths["A"], "A"], ["trace", paths["B"], "B"], ["compile", "A"], ["trace", paths["C"], "C"], ["compile", "B"]], "B"
+            elif shape == "abcBA":
+                plan, rep = [["trace", paths["A"], "A"], ["trace", paths["B"], "B"], ["trace", paths["C"], "C"], ["compile", "B"], ["compile", "A"]], "A"
+            else:
+                plan, rep = [["trace", paths["A"], "A"], ["trace", paths["B"], "B"], ["compile", "B"], ["compile", "A"], ["compile", "A"]], "A"
+            sp = os.path.join(pd, "spec.json")
+            json.dump({"plan": plan, "report": rep}, open(sp, "w"))
+            jobs.append(("interleaved:" + shape, sp, pd, {"A": a, "B": b, "C": c}[rep], [cands[i].get("text") or surface.to_python(cands[i]) for i in (a, b, c)]))
+        # (b) compile_script histories
+        for tag, files, order, rep in (
+            ("same-helper-name", {"a/main.py": MAIN_AB.format(n="va"), "a/helpers.py": HELPER_A, "b/main.py": MAIN_AB.format(n="vb"), "b/helpers.py": HELPER_B},
+             ["a/main.py", "b/main.py"], "b/main.py"),
+            ("helper-named-like-earlier-program", {"a/scaling.py": SCALING_PROGRAM, "b/main.py": MAIN_SCALING, "b/scaling.py": SCALING_B},
+             ["a/scaling.py", "b/main.py"], "b/main.py")):
+            pd = os.path.join(d, tag)
+            for rel, text in files.items():
+                os.makedirs(os.path.dirname(os.path.join(pd, rel)), exist_ok=True)
+                open(os.path.join(pd, rel), "w").write(text)
+            sp = os.path.join(pd, "spec.json")
+            json.dump({"plan": [["script", os.path.join(pd, r), r] for r in order], "report": rep}, open(sp, "w"))
+            sp0 = os.path.join(pd, "spec_alone.json")
+            json.dump({"plan": [["script", os.path.join(pd, rep), rep]], "report": rep}, open(sp0, "w"))
+            jobs.append(("scripts:" + tag, sp, pd, None, files))
+            jobs.append(("scripts-alone:" + tag, sp0, pd, None, files))
+
+        def one(job):
+            rc, out, err, dt = vlib.run([vlib.PY, os.path.join(vlib.VERIF, "tools", "run_history.py"), job[1]], 180, cwd=job[2], env=vlib.impl_env())
+            ls = [l for l in out.splitlines() if l.startswith("{")]
+            return json.loads(ls[-1]) if ls else {"exc": "HarnessFailure", "msg": vlib.clean_noise(err)[-300:]}
+        with concurrent.futures.ThreadPoolExecutor(max_workers=vlib.NCPU) as ex:
+            res = list(ex.map(one, jobs))
+    finally:
+        shutil.rmtree(d, ignore_errors=True)
+    if any(r.get("exc") == "HarnessFailure" for r in res):
+        raise RuntimeError("plan harness failed: " + str([r for r in res if r.get("exc") == "HarnessFailure"][0]))
+    # interleavings: equivalence up to renaming, in Coq
+    inter = [(j, r) for j, r in zip(jobs, res) if j[0].startswith("interleaved")]
+    items = [f"({mirprint.g_ioutcome(r)}, {mirprint.g_ioutcome(fresh[j[3]])})" for j, r in inter]
+    text = (progrun.HEAD + "From NadaV.Spec Require Import MirSpec Equiv.\n"
+            "Definition cases : list (ioutcome * ioutcome) :=\n  [" + ";\n   ".join(items) + "].\n"
+            "Eval vm_compute in (indices_where (fun c : ioutcome * ioutcome => match fst c, snd c with IOk ma, IOk mf => negb (mir_equivb ma mf) "
+            "| IRaise _, IRaise _ => false | _, _ => true end) cases 0%Z).\n")
+    rc, o, e, dt = vlib.eval_cases(ctx, "c08_plans", text, 900)
+    if rc != 0:
+        raise RuntimeError("cases c08_plans failed: " + (o + e)[-1200:])
+    bad = vlib.parse_zlist(vlib.parse_evals(o)[0])
+    for i in bad[:3]:
+        j, r = inter[i]
+        vlib.report_failure(ctx, "C08/" + j[0], "a program traced before another compilation and compiled after a later trace differs from the same program compiled alone",
+                            dict(case=dict(kind="interleaved-history", order=j[0], programs=dict(zip("ABC", j[4]))),
+                                 observed=(r if "ok" not in r else {k: r["ok"][k] for k in ("inputs", "parties", "literals", "outputs")}),
+                                 how_to_replay="tools/run_history.py with a plan: trace / compile steps in the given order"))
+    # compile_script histories: the reported program after the history vs compiled alone (another process), up to renaming (Coq)
+    sc = {j[0]: (j, r) for j, r in zip(jobs, res) if j[0].startswith("scripts")}
+    tags = ("same-helper-name", "helper-named-like-earlier-program")
+    items = [f"({mirprint.g_ioutcome(sc['scripts:' + t][1])}, {mirprint.g_ioutcome(sc['scripts-alone:' + t][1])})" for t in tags]
+    text = (progrun.HEAD + "From NadaV.Spec Require Import MirSpec Equiv.\n"
+            "Definition cases : list (ioutcome * ioutcome) :=\n  [" + ";\n   ".join(items) + "].\n"
+            "Eval vm_compute in (indices_where (fun c : ioutcome * ioutcome => match fst c, snd c with IOk ma, IOk mf => negb (mir_equivb ma mf) "
+            "| IRaise _, IRaise _ => false | _, _ => true end) cases 0%Z).\n")
+    rc, o, e, dt = vlib.eval_cases(ctx, "c08_scripts", text, 900)
+    if rc != 0:
+        raise RuntimeError("cases c08_scripts failed: " + (o + e)[-1200:])
+    sbad = vlib.parse_zlist(vlib.parse_evals(o)[0])
+    nsb = len(sbad)
+    for i in sbad:
+        tag = tags[i]
+        (j, r), (_, r0) = sc["scripts:" + tag], sc["scripts-alone:" + tag]
+        vlib.report_failure(ctx, "C08/scripts:" + tag, "a program compiled with compile_script after another one differs from the same program compiled alone",
+                            dict(case=dict(kind="compile_script-history", files=j[4]),
+                                 observed=(r if "ok" not in r else {k: r["ok"][k] for k in ("literals", "inputs", "outputs")}),
+                                 expected=(r0 if "ok" not in r0 else {k: r0["ok"][k] for k in ("literals", "inputs", "outputs")}),
+                                 how_to_replay="in one process: compile_script(<first>) then compile_script(<second>); compare with compile_script(<second>) alone"))
+    ctx.note(f"validate: {len(inter)} interleaved trace/compile plans: {len(bad)} differ from the program compiled alone; "
+             f"2 compile_script histories with helper modules: {nsb} differ")
+    ctx.cov["interleaved_plans"] = len(inter)
+    ctx.cov["compile_script_histories"] = 2
+
+
 def run(ctx):
     ok_x = vlib.step_extract(ctx)
     ok_p = vlib.step_prove(ctx) if ok_x else False
@@ -250,6 +368,7 @@ def run(ctx):
                                            probe=surface.to_python(cands[probe])),
                                  observed=(a if "ok" not in a else {k: a["ok"][k] for k in ("functions", "inputs", "parties", "literals", "outputs")}),
                                  how_to_replay="write the step programs and the probe to files; tools/run_history.py <spec.json> in one process"))
+    plans_part(ctx, cands, fresh, good, rng)
     ctx.note(f"validate: source tables (source_files, source_refs) of the probe after the history vs compiled alone (Spec/Equiv.sources_sameb): "
              f"{len(srcbad)} differ")
     seen_kinds = set()
